@@ -353,10 +353,13 @@ def mk_cases(ctx):
 def marker_data(m):
     code, ln, seed, style = m
     d = content(seed, ln)
-    pre = {"jfif": b"JFIF\0\x01\x02\x01\x00\x48\x00\x60\x00\x00", "jfxx": b"JFXX\0\x13", "jfif-short": b"JFIF\0",
-           "adobe": b"Adobe\0\x64\x80\0\0\0\x01", "adobe-short": b"Adobe"}.get(style, b"")
+    pre = {"jfif": b"JFIF\0\x01\x02\x01\x00\x48\x00\x60\x00\x00", "jfxx": b"JFXX\0\x13", "jfif-short": b"JFIF\0\x01",
+           "adobe": b"Adobe\0\x64\x80\0\0\0\x01", "adobe0": b"Adobe\0\x64\x80\0\0\0\x00", "adobe1": b"Adobe\0\x64\x80\0\0\0\x01",
+           "adobe2": b"Adobe\0\x64\x80\0\0\0\x02", "adobe-short": b"Adobe"}.get(style, b"")
     if pre:
         d = (pre + d)[:max(ln, 0)] if ln >= len(pre) else pre
+    if style == "adobe-short":
+        d = d[:11]              # shorter than APP14_DATA_LEN: never taken for an Adobe marker
     return d
 
 
@@ -537,9 +540,8 @@ def hp_expect(c):
                 jcs = TJCS_TO_JCS[p["cs"]]
             else:
                 jcs = 1 if sub == 3 else 5 if incmyk else 3
-            e.update(prec=bits, prog=p.get("prog", 0), arith=p.get("arith", 0), lossless=0, sub=3 if jcs == 1 else sub)
-            if jcs in (2, 3) and sub == 3 and not ingray:
-                e["sub"] = None      # 3-component image with 1x1 luma "gray" factors: reported as 4:4:4 by design
+            # TJSAMP_GRAY with a colour JPEG colourspace means 1x1 factors, i.e. 4:4:4
+            e.update(prec=bits, prog=p.get("prog", 0), arith=p.get("arith", 0), lossless=0, sub=3 if jcs == 1 else (0 if sub == 3 else sub))
         e["jcs"] = jcs
         if jcs in (1, 3):
             e["dens"] = (p.get("unit", 0), p.get("xd", 1), p.get("yd", 1))
@@ -705,16 +707,18 @@ def xf_cases(ctx):
     cases = []
     for i in range(ctx.n(30, 300)):
         ms = []
+        cs = rng.choice(["gray", "ycc", "rgb", "cmyk", "ycck"])
         for _ in range(rng.range(2, 7)):
             code = rng.choice([254, 254, 224, 225, 226, 226, 227, 237, 238, 239, rng.range(224, 239)])
             style = "rand"
             if code == 224:
                 style = rng.choice(["jfif", "jfxx", "jfif-short", "rand"])
-            if code == 238:
-                style = rng.choice(["adobe", "adobe-short", "rand"])
+            if code == 238:      # a transform code that the decompressor accepts without a warning for this component count
+                style = rng.choice([rng.choice({1: ["adobe0", "adobe1", "adobe2"], 3: ["adobe0", "adobe1"], 4: ["adobe0", "adobe2"]}[len(CSCOMPS[CSNUM[cs]])]),
+                                    "adobe-short", "rand"])
             ms.append([code, rng.choice([0, 1, 4, 5, 6, 14, rng.range(0, 400), rng.range(0, 400)]), rng.next(), style])
         icclen = rng.choice([0, 0, rng.range(1, 3000), rng.range(1, 3000), CHUNK + rng.range(1, 50)])
-        cases.append({"kind": "xf", "cs": rng.choice(["gray", "ycc", "rgb", "cmyk", "ycck"]), "markers": ms, "icclen": icclen,
+        cases.append({"kind": "xf", "cs": cs, "markers": ms, "icclen": icclen,
                       "iccseed": rng.next(), "iccpos": rng.choice([0, -1, 1, 2]), "op": rng.choice([0, 0, 1, 3, 6]),
                       "dsticc": rng.choice([0, 0, 0, rng.range(1, 500)]), "dstseed": rng.next()})
     return cases
@@ -732,6 +736,16 @@ def run_xf(ctx, R, cases):
         pos = c["iccpos"] if c["iccpos"] <= len(ds) else -1
         srcl.append("jc 16 16 %s 1x1,1x1,1x1,1x1 8 b 1 0 0 - d d %d %s %s" % (c["cs"], pos, hx(icc), ",".join("%d:%s" % (code, d.hex()) for code, d in ds)))
     srcs = R.harness(srcl, lambda i: cases[i])
+    # the colourspace the decompressor attributes to the source decides which of JFIF / Adobe the output gets
+    rdl = ["rd %s %s" % (ALLSAVE, o[3:]) if o.startswith("ok ") else "-" for o in srcs]
+    srd = R.harness(rdl, lambda i: cases[i])
+    smd = R.model(rdl)
+    src_jcs = []
+    for c, h, m in zip(cases, srd, smd):
+        kv = dict(x.split("=", 1) for x in h.split() if "=" in x)
+        src_jcs.append(int(kv.get("cs", "0").split()[0]) if h.startswith("hdr") else 0)
+        if h.startswith("hdr"):
+            R.corr("copy-read", "rd of source", m, h, c)
     hl, meta = [], []
     for ci, (c, o) in enumerate(zip(cases, srcs)):
         if not o.startswith("ok "):
@@ -757,7 +771,7 @@ def run_xf(ctx, R, cases):
         if osegs is None:
             ctx.violation("transformed stream unparsable", {"case": c, "api": api, "opt": opt}, signature="xf-unparsable")
             continue
-        jcs = CSNUM[c["cs"]]
+        jcs = src_jcs[ci]
         wj, wa = jcs in (1, 3), jcs in (2, 4, 5)
         eopt = 0 if cn else opt
         shead = [s for s in ssegs[:next(i for i, s in enumerate(ssegs) if not is_appcom(s[0]))]]
